@@ -73,31 +73,31 @@ Definition reasons : list (string * string) := [
 
 (** (file, function, total number of hazardous constructs in that function, reason id) *)
 Definition allow_list : list (string * string * N * string) := [
-  ("app/app.go", "(*Teleport).InitChainer", 1%N, "R_json_sorted");
+  ("app/app.go", "*Teleport.InitChainer", 1%N, "R_json_sorted");
   ("app/app.go", "init", 2%N, "R_node_home");
-  ("app/export.go", "(*Teleport).ExportAppStateAndValidators", 1%N, "R_json_sorted");
+  ("app/export.go", "*Teleport.ExportAppStateAndValidators", 1%N, "R_json_sorted");
   ("app/test_helpers.go", "Setup", 1%N, "R_json_sorted");
-  ("syscontracts/bin_runtime.go", "(*CompiledContract).UnmarshalJSON", 1%N, "R_json_sorted");
-  ("syscontracts/bin_runtime.go", "(CompiledContract).MarshalJSON", 1%N, "R_json_sorted");
+  ("syscontracts/bin_runtime.go", "*CompiledContract.UnmarshalJSON", 1%N, "R_json_sorted");
+  ("syscontracts/bin_runtime.go", "CompiledContract.MarshalJSON", 1%N, "R_json_sorted");
   ("syscontracts/erc20/erc20.go", "init", 1%N, "R_json_sorted");
   ("syscontracts/erc20/erc20_burnable.go", "init", 1%N, "R_json_sorted");
   ("syscontracts/erc20/erc20_direct_balance_manipulation.go", "init", 1%N, "R_json_sorted");
   ("syscontracts/erc20/erc20_malicious_delayed.go", "init", 1%N, "R_json_sorted");
-  ("syscontracts/gov/generated.go", "(*GovFilterer).WatchVoted", 10%N, "R_abigen_client");
-  ("syscontracts/gov/generated.go", "(*GovFilterer).WatchVotedWeighted", 10%N, "R_abigen_client");
-  ("syscontracts/gov/generated.go", "(*GovVotedIterator).Next", 5%N, "R_abigen_client");
-  ("syscontracts/gov/generated.go", "(*GovVotedWeightedIterator).Next", 5%N, "R_abigen_client");
+  ("syscontracts/gov/generated.go", "*GovFilterer.WatchVoted", 10%N, "R_abigen_client");
+  ("syscontracts/gov/generated.go", "*GovFilterer.WatchVotedWeighted", 10%N, "R_abigen_client");
+  ("syscontracts/gov/generated.go", "*GovVotedIterator.Next", 5%N, "R_abigen_client");
+  ("syscontracts/gov/generated.go", "*GovVotedWeightedIterator.Next", 5%N, "R_abigen_client");
   ("syscontracts/gov/generated.go", "<type GovVotedIterator>", 1%N, "R_abigen_client");
   ("syscontracts/gov/generated.go", "<type GovVotedWeightedIterator>", 1%N, "R_abigen_client");
   ("syscontracts/gov/gov.go", "init", 1%N, "R_json_sorted");
-  ("syscontracts/staking/generated.go", "(*StakingDelegatedIterator).Next", 5%N, "R_abigen_client");
-  ("syscontracts/staking/generated.go", "(*StakingFilterer).WatchDelegated", 10%N, "R_abigen_client");
-  ("syscontracts/staking/generated.go", "(*StakingFilterer).WatchRedelegated", 10%N, "R_abigen_client");
-  ("syscontracts/staking/generated.go", "(*StakingFilterer).WatchUndelegated", 10%N, "R_abigen_client");
-  ("syscontracts/staking/generated.go", "(*StakingFilterer).WatchWithdrew", 10%N, "R_abigen_client");
-  ("syscontracts/staking/generated.go", "(*StakingRedelegatedIterator).Next", 5%N, "R_abigen_client");
-  ("syscontracts/staking/generated.go", "(*StakingUndelegatedIterator).Next", 5%N, "R_abigen_client");
-  ("syscontracts/staking/generated.go", "(*StakingWithdrewIterator).Next", 5%N, "R_abigen_client");
+  ("syscontracts/staking/generated.go", "*StakingDelegatedIterator.Next", 5%N, "R_abigen_client");
+  ("syscontracts/staking/generated.go", "*StakingFilterer.WatchDelegated", 10%N, "R_abigen_client");
+  ("syscontracts/staking/generated.go", "*StakingFilterer.WatchRedelegated", 10%N, "R_abigen_client");
+  ("syscontracts/staking/generated.go", "*StakingFilterer.WatchUndelegated", 10%N, "R_abigen_client");
+  ("syscontracts/staking/generated.go", "*StakingFilterer.WatchWithdrew", 10%N, "R_abigen_client");
+  ("syscontracts/staking/generated.go", "*StakingRedelegatedIterator.Next", 5%N, "R_abigen_client");
+  ("syscontracts/staking/generated.go", "*StakingUndelegatedIterator.Next", 5%N, "R_abigen_client");
+  ("syscontracts/staking/generated.go", "*StakingWithdrewIterator.Next", 5%N, "R_abigen_client");
   ("syscontracts/staking/generated.go", "<type StakingDelegatedIterator>", 1%N, "R_abigen_client");
   ("syscontracts/staking/generated.go", "<type StakingRedelegatedIterator>", 1%N, "R_abigen_client");
   ("syscontracts/staking/generated.go", "<type StakingUndelegatedIterator>", 1%N, "R_abigen_client");
@@ -108,20 +108,20 @@ Definition allow_list : list (string * string * N * string) := [
   ("syscontracts/xibc_endpoint/endpoint.go", "init", 1%N, "R_json_sorted");
   ("syscontracts/xibc_endpoint/execute.go", "init", 1%N, "R_json_sorted");
   ("syscontracts/xibc_packet/packet.go", "init", 1%N, "R_json_sorted");
-  ("x/aggregate/module/module.go", "(AppModule).RandomizedParams", 1%N, "R_simulation");
+  ("x/aggregate/module/module.go", "AppModule.RandomizedParams", 1%N, "R_simulation");
   ("x/rvesting/module/abci.go", "BeginBlocker", 1%N, "R_telemetry");
-  ("x/rvesting/module/module.go", "(AppModule).InitGenesis", 1%N, "R_telemetry");
+  ("x/rvesting/module/module.go", "AppModule.InitGenesis", 1%N, "R_telemetry");
   ("x/xibc/clients/light-clients/bsc/types/hashing.go", "<package-level hasherPool>", 1%N, "R_hasher_pool");
   ("x/xibc/clients/light-clients/eth/types/algorithm.go", "generateCache", 17%N, "R_ethash_cache_gen");
   ("x/xibc/clients/light-clients/eth/types/algorithm.go", "generateDataset", 11%N, "R_ethash_full_dag");
-  ("x/xibc/clients/light-clients/eth/types/ethash.go", "(*Ethash).Close", 2%N, "R_ethash_lifecycle");
-  ("x/xibc/clients/light-clients/eth/types/ethash.go", "(*Ethash).Hashrate", 7%N, "R_ethash_mining");
-  ("x/xibc/clients/light-clients/eth/types/ethash.go", "(*Ethash).SetThreads", 2%N, "R_ethash_mining");
-  ("x/xibc/clients/light-clients/eth/types/ethash.go", "(*Ethash).cache", 1%N, "R_ethash_future_cache");
-  ("x/xibc/clients/light-clients/eth/types/ethash.go", "(*Ethash).dataset", 2%N, "R_ethash_full_dag");
-  ("x/xibc/clients/light-clients/eth/types/ethash.go", "(*cache).generate", 4%N, "R_ethash_disk_cache");
-  ("x/xibc/clients/light-clients/eth/types/ethash.go", "(*dataset).generate", 5%N, "R_ethash_full_dag");
-  ("x/xibc/clients/light-clients/eth/types/ethash.go", "(*dataset).generated", 1%N, "R_ethash_full_dag");
+  ("x/xibc/clients/light-clients/eth/types/ethash.go", "*Ethash.Close", 2%N, "R_ethash_lifecycle");
+  ("x/xibc/clients/light-clients/eth/types/ethash.go", "*Ethash.Hashrate", 7%N, "R_ethash_mining");
+  ("x/xibc/clients/light-clients/eth/types/ethash.go", "*Ethash.SetThreads", 2%N, "R_ethash_mining");
+  ("x/xibc/clients/light-clients/eth/types/ethash.go", "*Ethash.cache", 1%N, "R_ethash_future_cache");
+  ("x/xibc/clients/light-clients/eth/types/ethash.go", "*Ethash.dataset", 2%N, "R_ethash_full_dag");
+  ("x/xibc/clients/light-clients/eth/types/ethash.go", "*cache.generate", 4%N, "R_ethash_disk_cache");
+  ("x/xibc/clients/light-clients/eth/types/ethash.go", "*dataset.generate", 5%N, "R_ethash_full_dag");
+  ("x/xibc/clients/light-clients/eth/types/ethash.go", "*dataset.generated", 1%N, "R_ethash_full_dag");
   ("x/xibc/clients/light-clients/eth/types/ethash.go", "<type Ethash>", 4%N, "R_ethash_lifecycle");
   ("x/xibc/clients/light-clients/eth/types/ethash.go", "<type cache>", 3%N, "R_ethash_disk_cache");
   ("x/xibc/clients/light-clients/eth/types/ethash.go", "<type dataset>", 3%N, "R_ethash_full_dag");
@@ -132,19 +132,19 @@ Definition allow_list : list (string * string * N * string) := [
   ("x/xibc/clients/light-clients/eth/types/ethash.go", "memoryMapAndGenerate", 7%N, "R_ethash_disk_cache");
   ("x/xibc/clients/light-clients/eth/types/ethash.go", "memoryMapFile", 9%N, "R_ethash_disk_cache");
   ("x/xibc/clients/light-clients/eth/types/hashing.go", "<package-level hasherPool>", 1%N, "R_hasher_pool");
-  ("x/xibc/clients/light-clients/eth/types/sealer.go", "(*Ethash).Seal", 24%N, "R_ethash_mining");
-  ("x/xibc/clients/light-clients/eth/types/sealer.go", "(*Ethash).mine", 8%N, "R_ethash_mining");
-  ("x/xibc/clients/light-clients/eth/types/sealer.go", "(*remoteSealer).loop", 18%N, "R_ethash_mining");
-  ("x/xibc/clients/light-clients/eth/types/sealer.go", "(*remoteSealer).notifyWork", 1%N, "R_ethash_mining");
-  ("x/xibc/clients/light-clients/eth/types/sealer.go", "(*remoteSealer).submitWork", 5%N, "R_ethash_mining");
+  ("x/xibc/clients/light-clients/eth/types/sealer.go", "*Ethash.Seal", 24%N, "R_ethash_mining");
+  ("x/xibc/clients/light-clients/eth/types/sealer.go", "*Ethash.mine", 8%N, "R_ethash_mining");
+  ("x/xibc/clients/light-clients/eth/types/sealer.go", "*remoteSealer.loop", 18%N, "R_ethash_mining");
+  ("x/xibc/clients/light-clients/eth/types/sealer.go", "*remoteSealer.notifyWork", 1%N, "R_ethash_mining");
+  ("x/xibc/clients/light-clients/eth/types/sealer.go", "*remoteSealer.submitWork", 5%N, "R_ethash_mining");
   ("x/xibc/clients/light-clients/eth/types/sealer.go", "<type hashrate>", 1%N, "R_ethash_mining");
   ("x/xibc/clients/light-clients/eth/types/sealer.go", "<type mineResult>", 1%N, "R_ethash_mining");
   ("x/xibc/clients/light-clients/eth/types/sealer.go", "<type remoteSealer>", 10%N, "R_ethash_mining");
   ("x/xibc/clients/light-clients/eth/types/sealer.go", "<type sealTask>", 1%N, "R_ethash_mining");
   ("x/xibc/clients/light-clients/eth/types/sealer.go", "<type sealWork>", 2%N, "R_ethash_mining");
   ("x/xibc/clients/light-clients/eth/types/sealer.go", "startRemoteSealer", 9%N, "R_ethash_mining");
-  ("x/xibc/clients/light-clients/eth/types/verify_header.go", "(*Ethash).VerifySeal", 2%N, "R_keepalive");
-  ("x/xibc/module/module.go", "(AppModule).RandomizedParams", 1%N, "R_simulation");
+  ("x/xibc/clients/light-clients/eth/types/verify_header.go", "*Ethash.VerifySeal", 2%N, "R_keepalive");
+  ("x/xibc/module/module.go", "AppModule.RandomizedParams", 1%N, "R_simulation");
   ("types/events.go", "EmitTypedEvent", 1%N, "R_typed_event_sorted")
 ].
 
